@@ -241,6 +241,9 @@ def compare_terms(td, tc, nan=False):
     except Exception:                 # noqa
         pass
     d = tm.diff(td, tc)
+    wit = pattern_witness(td, tc)
+    if wit:
+        return R.REFUTED, 'different values for the input bit patterns %s: %#x versus %#x (terms differ at %s: %s ; %s)' % (wit[0], wit[1], wit[2], d[0], tm.show(d[1], 4), tm.show(d[2], 4))
     return R.UNDECIDED, 'terms differ at %s: %s ; %s' % (d[0], tm.show(d[1], 4), tm.show(d[2], 4))
 
 
